@@ -13,10 +13,10 @@ import (
 type ArcStatus int
 
 const (
-	ArcOK      ArcStatus = iota // radii strictly larger than needed: centre well conditioned
-	ArcHalf                     // radii exactly span the chord (up to rounding): half ellipse, centre = chord midpoint
-	ArcTooSmall                 // radii too small for the chord: not a canonical arc (radii would be scaled up)
-	ArcIllConditioned           // radii within 1e-6 relative of the minimum but not equal: centre too sensitive to call
+	ArcOK             ArcStatus = iota // radii strictly larger than needed: centre well conditioned
+	ArcHalf                            // radii exactly span the chord (up to rounding): half ellipse, centre = chord midpoint
+	ArcTooSmall                        // radii too small for the chord: not a canonical arc (radii would be scaled up)
+	ArcIllConditioned                  // radii within 1e-6 relative of the minimum but not equal: centre too sensitive to call
 )
 
 // ArcLambda is the W3C F.6.6 quantity x1'^2/rx^2 + y1'^2/ry^2 (1 = radii exactly span the chord).
@@ -312,7 +312,7 @@ func NearestParam(s Seg, q Pt, n int) (float64, float64) {
 	}
 	best, bd := 0, math.Inf(1)
 	for i := 0; i <= n; i++ {
-		if d := q.Dist(SegAt(s, float64(i) / float64(n))); d < bd {
+		if d := q.Dist(SegAt(s, float64(i)/float64(n))); d < bd {
 			best, bd = i, d
 		}
 	}
